@@ -319,6 +319,7 @@ var _ *pb.SharedGroupProposal
 //@ props C14
 //@ safety UNCLAIMED
 //@ requires [group] group != nil
+//@ ensures [empty-registry] isnil(ret1) ==> ret0.proxies != nil && forall n string :: !has(ret0.proxies, n)
 //@ ensures [registered] isnil(ret1) ==> ret0 != nil && fresh(ret0) && ret0.group == group && group.processFn != nil && group.processSnapshotFn != nil && group.snapshotFn != nil
 //@ ensures [untouched] group.transport == old(group.transport) && group.raft == old(group.raft) && group.wal == old(group.wal) && group.ctx == old(group.ctx) && group.log == old(group.log)
 //@ modifies group.processFn, group.processSnapshotFn, group.snapshotFn
@@ -330,14 +331,28 @@ var _ *pb.SharedGroupProposal
 //@ props C14
 //@ assume
 //@ modifies *
+// a consumer's restore function works on the consumer's own state: it does not touch the registry of consumers or the decoded
+// snapshot it is handed a part of (the one registered consumer, DatasetManager.processSnapshot, is verified with a narrower frame)
 //@ func field:storage/raft.sharedGroupProxy.processSnapshotFn
 //@ props C14
 //@ assume
-//@ modifies *
+//@ modifies * except maps[map[string][]byte]; maps[map[string]*sharedGroupProxy]; type sharedGroup.proxies; type sharedGroupProxy.processSnapshotFn; type pb.SharedGroupSnapshot.ProxySnapshots
 //@ func field:storage/raft.sharedGroupProxy.snapshotFn
 //@ props C14
 //@ assume
 //@ modifies nothing
+
+// the registry of consumers is keyed by the consumer's own name (snapshot() stores a consumer's state under proxy.name and
+// processSnapshot() looks the consumer up by that key)
+//@ spec namedProxies(sg *sharedGroup) bool = sg.proxies != nil && forall n string :: has(sg.proxies, n) ==> sg.proxies[n] != nil && sg.proxies[n].name == n
+//@ func (*storage/raft.sharedGroup).Get
+//@ props C14
+//@ requires [registry] namedProxies(this)
+//@ ensures [registered] ret != nil && has(this.proxies, name) && this.proxies[name] == ret && ret.name == name
+//@ ensures [registry-kept] namedProxies(this)
+//@ ensures [others] forall n string :: n != name ==> has(this.proxies, n) == old(has(this.proxies, n)) && this.proxies[n] == old(this.proxies[n])
+//@ ensures [existing-kept] old(has(this.proxies, name)) ==> ret == old(this.proxies[name])
+//@ modifies map(this.proxies)
 
 //@ func (*storage/raft.sharedGroup).process
 //@ props C14
@@ -365,9 +380,16 @@ var _ *pb.SharedGroupProposal
 //@ at call field:storage/raft.sharedGroupProxy.processSnapshotFn
 //@ set restored = restored + 1
 //@ end
+//@ at call proto.Unmarshal
+//@ assume [decoding is a function of the bytes: snapshotProxyNames(data) names the consumer map proto.Unmarshal builds from data] isnil($ret0) ==> snapshot.ProxySnapshots == snapshotProxyNames(data)
+//@ end
 //@ requires [wf] this.proxies != nil
 //@ requires [C14 consumers-registered] forall n string :: has(snapshotProxyNames(data), n) ==> has(this.proxies, n) && this.proxies[n] != nil && this.proxies[n].processSnapshotFn != nil
+//@ ensures [C14 every-captured-consumer-restored] isnil(ret) ==> restored == len(snapshot.ProxySnapshots)
 //@ modifies *
+//@ loop 1
+//@ invariant [C14 restored-so-far] restored == $count && forall n string :: has($map, n) == $start[n]
+//@ invariant [consumers-registered] this.proxies != nil && forall n string :: has($map, n) ==> has(this.proxies, n) && this.proxies[n] != nil && this.proxies[n].processSnapshotFn != nil
 
 // ---------------------------------------------------------------------------------------------
 // C20: membership. A join is proposed as an AddNode configuration change that carries the announced address; when the zero
@@ -380,6 +402,34 @@ var _ *pb.SharedGroupProposal
 //@ requires [C20 join-carries-address] $arg2.Type == 0 && $arg2.NodeID == nodeId && string($arg2.Context) == address
 //@ end
 //@ requires [wf] !isnil(this.raft)
+//@ modifies nothing
+
+// C20: a join is acknowledged (the member list is streamed back) only after it was proposed to the zero group with the announced
+// id and address - for a node that is already listed too (it may announce a new address)
+//@ func (*storage/raft.NodesManager).AddNode
+//@ props C20
+//@ safety UNCLAIMED
+//@ ghost joins int = 0
+//@ at call RaftGroup).ProposeJoin
+//@ requires [C20 join-proposes-announced-address] $arg0 == this.zeroGroup && $arg1 == id && $arg2 == address
+//@ set joins = joins + 1
+//@ end
+//@ requires [wf] this.zeroGroup != nil && !isnil(this.zeroGroup.raft) && this.clusterConn != nil && this.clusterConn.addresses != nil
+//@ ensures [C20 acknowledged-join-was-proposed] isnil(ret1) ==> joins == 1
+//@ ensures [C20 acknowledgement-lists-the-joiner] isnil(ret1) ==> ret0 != nil && has(ret0, id) && ret0[id] == address
+//@ ensures [C20 failed-proposal-is-an-error] joins == 0 ==> !isnil(ret1)
+//@ modifies nothing
+
+//@ func (*storage/raft.NodesManager).RemoveNode
+//@ props C20
+//@ safety UNCLAIMED
+//@ ghost leaves int = 0
+//@ at call RaftGroup).ProposeLeave
+//@ requires [C20 leave-names-the-node] $arg0 == this.zeroGroup && $arg1 == id
+//@ set leaves = leaves + 1
+//@ end
+//@ requires [wf] this.zeroGroup != nil && !isnil(this.zeroGroup.raft)
+//@ ensures [C20 acknowledged-removal-was-proposed] isnil(ret) ==> leaves == 1
 //@ modifies nothing
 
 //@ func (*storage/raft.RaftGroup).ProposeLeave
@@ -399,6 +449,12 @@ var _ *pb.SharedGroupProposal
 //@ at call Conn).Nodes
 //@ set readBook = 1
 //@ end
-//@ requires [wf] this.proxies != nil && forall n string :: has(this.proxies, n) ==> this.proxies[n] != nil
+//@ at call proto.Marshal
+//@ requires [C14 every-consumer-captured] forall n string :: has(this.proxies, n) && this.proxies[n].snapshotFn != nil ==> has(asptr($arg0.pay, pb.SharedGroupSnapshot).ProxySnapshots, n)
+//@ end
+//@ requires [wf] namedProxies(this)
 //@ ensures [C20 captures-book] isnil(ret1) ==> readBook == 1
 //@ modifies nothing
+//@ loop 1
+//@ invariant [C14 captured-so-far] proxySnapshots != nil && fresh(proxySnapshots) && forall n string :: $visited[n] && this.proxies[n].snapshotFn != nil ==> has(proxySnapshots, n)
+//@ invariant [consumers-fixed] forall n string :: has(this.proxies, n) == $start[n] && (has(this.proxies, n) ==> this.proxies[n] != nil && this.proxies[n].name == n)
